@@ -3,7 +3,7 @@
 From MMD.lib Require Import Bytes Utf8.
 From MMD.gen Require Import CharTable.
 From MMD.model Require Import LabelModel MetaModel.
-From MMD.proofs Require Import MetaProofs LabelProofs EscaperProofs MetaRoundTrip.
+From MMD.proofs Require Import MetaProofs LabelProofs EscaperProofs MetaRoundTrip MetaUpdate.
 Local Open Scope N_scope.
 
 (* a key - a letter or digit followed by letters, digits, blanks, '_', '-', '.' - directly followed by
@@ -39,6 +39,49 @@ Theorem meta_block_roundtrip :
   meta_parse ws (block_text (e1 :: r) ++ tail) = Some (result ws (e1 :: r), length (block_text (e1 :: r))).
 Proof. exact meta_roundtrip. Qed.
 Print Assumptions meta_block_roundtrip.
+
+(* updating: on such a block, mmd_engine_update_metavalue_for_key (model: MetaModel.meta_update, tied to the compiled
+   function on every update of the correspondence run) called with a key that the entry (ki, vi) is the first to carry -
+   in any spelling with the same normalised form - rewrites exactly that entry's value, keeping the blanks after its
+   colon: every other line of the block, and everything after the block, is the same text as before.  A key may occur
+   again later in the block; the entry rewritten is the one a query returns. *)
+Theorem update_rewrites_exactly_one_value :
+  forall ws es1 ki vi es2 tail key value,
+  let es := es1 ++ (ki, vi) :: es2 in
+  forallb wf_entry es = true ->
+  (match es with e1 :: _ => forallb is_ws (snd e1) = false | [] => True end) ->
+  tail_ok tail ->
+  (forall e, In e es1 -> bytes_eqb_l (label_from_string key) (label_from_string (fst e)) = false) ->
+  bytes_eqb_l (label_from_string key) (label_from_string ki) = true ->
+  meta_update ws (block_text es ++ tail) key value =
+  block_text (es1 ++ (ki, take_while is_ws vi ++ value) :: es2) ++ tail.
+Proof. exact update_rewrites_one_value. Qed.
+Print Assumptions update_rewrites_exactly_one_value.
+
+(* ... and reads back: the updated text is again a block of the same entries, the updated one carrying the new value
+   (cleaned like any value), all others their old ones, ending where the rewritten block ends *)
+Theorem update_reads_back_new_value :
+  forall ws es1 ki vi es2 tail key value,
+  let es := es1 ++ (ki, vi) :: es2 in
+  let es' := es1 ++ (ki, take_while is_ws vi ++ value) :: es2 in
+  forallb wf_entry es = true ->
+  (match es with e1 :: _ => forallb is_ws (snd e1) = false | [] => True end) ->
+  tail_ok tail ->
+  (forall e, In e es1 -> bytes_eqb_l (label_from_string key) (label_from_string (fst e)) = false) ->
+  bytes_eqb_l (label_from_string key) (label_from_string ki) = true ->
+  no_eol value = true -> forallb is_ws value = false ->
+  meta_parse ws (meta_update ws (block_text es ++ tail) key value) = Some (result ws es', length (block_text es')).
+Proof. exact update_reads_back. Qed.
+Print Assumptions update_reads_back_new_value.
+
+(* non-vacuity, with a key that occurs twice: "a: 1 / b: 2 / A: 3 / <empty line> / body", update a := NEW *)
+Example update_example :
+  let ws := is_whitespace_or_line_ending in
+  let s := [97;58;32;49;10; 98;58;32;50;10; 65;58;32;51;10; 10; 98;111;100;121;10] in
+  meta_update ws s [97] [78;69;87] = [97;58;32;78;69;87;10; 98;58;32;50;10; 65;58;32;51;10; 10; 98;111;100;121;10] /\
+  meta_value_for ws (meta_update ws s [97] [78;69;87]) [97] = Some [78;69;87] /\
+  meta_value_for ws (meta_update ws s [97] [78;69;87]) [98] = Some [50].
+Proof. vm_compute. repeat split; reflexivity. Qed.
 
 (* and for an ordinary value - words separated by single blanks, no backslash, ampersand or other white
    space - the cleaned text is the value itself: what was written is what is reported *)
